@@ -10,7 +10,8 @@ Line-protocol adapters for the stable lexer / FileInfo model (E-LEX).
   lexpos   (C13)  `pos <l|s> <hex>`  SourcePos of every scanned offset, Start/End of every item
                   `cpos <l|s> <hex>` the same questions asked from 8 goroutines at once: same / differ
   literal  (C14)  `lit|opt|dflt <hex>` literal decoding alone / as option value / as default
-  lextotal (C12)  `tot <l|s> <hex> <observed error offset:class list> <observed Parse outcome> <observed ResultFromAST outcome>`
+  lextotal (C12)  `tot <l|s> <hex> <observed error offset:class list> <observed Parse outcome> <observed ResultFromAST outcome>
+                       <observed offsets of ResultFromAST's errors> <observed outcome of touching every AST node>`
 
 `step` is the model's answer; `spec` is the property oracle evaluated on the implementation's
 own answer (it never looks at the model).
@@ -457,9 +458,10 @@ def literal : Engine := Engine.pure literalModel literalSpec
 
 def lextotalModel (line : String) : String :=
   match words line with
-  | ["tot", m, h, obs, parse, res] =>
-    match mode? m, bytesOfHex h, (listOf obs ",").mapM (fun w => ((w.splitOn ":").headD "").toNat?) with
-    | some lenient, some bs, some offs =>
+  | ["tot", m, h, obs, parse, res, robs, walk] =>
+    match mode? m, bytesOfHex h, (listOf obs ",").mapM (fun w => ((w.splitOn ":").headD "").toNat?),
+        (listOf robs ",").mapM String.toNat? with
+    | some lenient, some bs, some offs, some roffs =>
       let st := lexAll lenient bs
       if parse == "PANIC:runtime_error:_index_out_of_range_[-1]" then
         -- the one panic the lexer model has: it must be present in the lexer-only run of the model
@@ -474,8 +476,11 @@ def lextotalModel (line : String) : String :=
         let fi := if st.panicked then (lexAll false bs).fi else st.fi
         let ps := offs.map (fun (o : Nat) => match sourcePos fi (o : Int) with
           | some (l, c) => s!"{o}:{l}:{c}" | none => s!"{o}:?")
-        s!"ast=ok err={if offs.isEmpty then 0 else 1} rep={offs.length} pos={joinOr ps ","} res={res}"
-    | _, _, _ => "bad-op"
+        -- positions of the errors ResultFromAST reported (offsets of AST nodes, all scanned)
+        let rps := roffs.map (fun (o : Nat) => match sourcePos fi (o : Int) with
+          | some (l, c) => s!"{o}:{l}:{c}" | none => s!"{o}:?")
+        s!"ast=ok err={if offs.isEmpty then 0 else 1} rep={offs.length} pos={joinOr ps ","} res={res} rpos={joinOr rps ","} walk={walk}"
+    | _, _, _, _ => "bad-op"
   | _ => "bad-op"
 
 /-- bytes of the k-th (0-based) line, without its newline -/
@@ -498,14 +503,16 @@ def lineColExists (data : List UInt8) (l c : Nat) : Bool :=
 /-- C12 oracle on one Parse + ResultFromAST run -/
 def lextotalSpec (line ans : String) : String :=
   match words line with
-  | ["tot", _, h, obs, _, _] =>
+  | ["tot", _, h, obs, _, _, _, _] =>
     if ans.startsWith "PANIC" then "fails parse-panicked " ++ (ans.drop 6).toString
     else if ans.startsWith "obs-mismatch" then "skip"
     else
-    match bytesOfHex h, field ans "ast", field ans "err", field ans "rep", field ans "pos", field ans "res" with
-    | some bs, some a, some e, some r, some p, some res =>
+    match bytesOfHex h, field ans "ast", field ans "err", field ans "rep", field ans "pos", field ans "res",
+        field ans "rpos", field ans "walk" with
+    | some bs, some a, some e, some r, some p, some res, some rp, some walk =>
       let data := stripBOM bs
       if a != "ok" then "fails nil-ast"
+      else if walk != "ok" && walk != "bad-eof-token" then "fails ast-walk-" ++ walk
       else if res != "ok" then
         (if (obs.splitOn ":novalue").length > 1 then "fails result-from-ast-panicked-after-valueless-compact-option " ++ res
          else "fails result-from-ast-panicked " ++ res)
@@ -524,8 +531,24 @@ def lextotalSpec (line ans : String) : String :=
                    else some s!"fails error-position-not-in-file {t}")
                 else none
               | none => some "fails bad-answer")
-            bad.getD "holds"
-    | _, _, _, _, _, _ => "fails bad-answer"
+            match bad with
+            | some f => f
+            | none =>
+              -- positions reported by ResultFromAST / validation
+              let rbad := (listOf rp ",").findSome? (fun t =>
+                match triple? t with
+                | some (o, l, c) =>
+                  if o > data.length then some s!"fails result-error-offset-outside-file {t}"
+                  else if !lineColExists data l c then some s!"fails result-error-position-not-in-file {t}"
+                  else none
+                | none => some "fails bad-answer")
+              match rbad with
+              | some f => f
+              | none =>
+                -- last: the AST's EOF token must be the last, empty item (every other check of this
+                -- op has passed when this is reported)
+                if walk == "bad-eof-token" then "fails ast-walk-bad-eof-token" else "holds"
+    | _, _, _, _, _, _, _, _ => "fails bad-answer"
   | _ => "skip"
 
 def lextotal : Engine := Engine.pure lextotalModel lextotalSpec
